@@ -307,6 +307,11 @@ m("C17-r6", "C17", "libwallet/src/internal/tx.rs", "\t\tSome(tx.id),\n\t\tSome(&
 m("C10-r6", "C10", "libwallet/src/address.rs", "key_path.path[key_path.depth as usize - 1] = ChildNumber::from(index);", "key_path.path[key_path.depth as usize] = ChildNumber::from(index);", "C10.R6")
 m("C19-r6", "C19", "libwallet/src/types.rs", "\t#[serde(with = \"option_duration_as_secs\", default)]\n\tpub reverted_after: Option<Duration>,\n}\n\nimpl ser::Writeable for TxLogEntry", "\t#[serde(with = \"option_duration_as_secs\")]\n\tpub reverted_after: Option<Duration>,\n}\n\nimpl ser::Writeable for TxLogEntry", "C19.R6")
 
+m("C04-r11", "C04", "libwallet/src/internal/selection.rs", "\t\t\tif batch.get(id, mmr_index).is_ok() {\n\t\t\t\tcontinue;\n\t\t\t}\n", "\t\t\tlet _ = mmr_index;\n", "C04.R11")
+
+m("C12-r11a", "C12", "libwallet/src/api_impl/owner.rs", "\t\tif !own_invoice {\n\t\t\tlet mut batch = w.batch(keychain_mask)?;\n\t\t\tbatch.delete_private_context(slate.id.as_bytes())?;\n\t\t\tbatch.commit()?;\n\t\t}\n", "\t\tlet _ = own_invoice;\n", "C12.R11")
+m("C12-r11b", "C12", "libwallet/src/api_impl/owner.rs", "\tif slate.state == SlateState::Invoice2 {\n\t\tlet own_invoice", "\tif slate.state == SlateState::Invoice3 {\n\t\tlet own_invoice", "C12.R11")
+
 
 def for_property(prop):
     return [x for x in M if x["property"] == prop]
